@@ -44,6 +44,9 @@ static void join_all(int n) {
   }
 }
 #define YIELD(k) wl_maybe_yield(wl_mix(P[Q_SEED], (uint64_t)(k)), (int)P[Q_YIELD_PM])
+/* a quarter of the runs use their synchronisation objects twice: scenario, destroy, init again, scenario again
+   (objects that were used, destroyed and re-initialised must behave like fresh ones) */
+#define NCYCLES() (1 + (int)(wl_mix(P[Q_SEED], 4711) % 4 == 0))
 
 /* ================================================================== */
 /* mutex (C04)                                                         */
@@ -154,10 +157,11 @@ static void mutex_run(const long *p, mvsim_runcfg *cfg, mvsim_runstats *st) {
   P = p;
   int n = (int)p[M_NTHREADS]; if (n > MAXT) n = MAXT;
   if (n > 40) { cfg->budget1 += 600UL * (uint64_t)n * (uint64_t)p[M_NACQ]; cfg->budget2 += 6000UL * (uint64_t)n * (uint64_t)p[M_NACQ]; }
+  wl_begin(cfg, p[Q_NWORKERS], 32, p[Q_QSIZE], (int)p[Q_PFIRST]);
+  for (int cyc = 0, ncyc = n > 40 ? 1 : NCYCLES(); cyc < ncyc; cyc++) {
   memset((void *)occ, 0, sizeof occ); memset((void *)interest, 0, sizeof interest);
   memset((void *)enter_events, 0, sizeof enter_events); memset((void *)acq_count, 0, sizeof acq_count);
   memset(acq_by_thread, 0, sizeof acq_by_thread);
-  wl_begin(cfg, p[Q_NWORKERS], 32, p[Q_QSIZE], (int)p[Q_PFIRST]);
   for (int m = 0; m < p[M_NMUTEX]; m++) myth_mutex_init(&MX[m], 0);
   spawn_all(n, mutex_thread);
   join_all(n);
@@ -165,6 +169,7 @@ static void mutex_run(const long *p, mvsim_runcfg *cfg, mvsim_runstats *st) {
   for (int m = 0; m < p[M_NMUTEX]; m++) { tot += acq_count[m]; MVH_CHECK(interest[m] == 0 && occ[m] == 0, "C04-MUTEX", "witness counters not zero at the end"); }
   MVH_CHECK(tot == (long)n * p[M_NACQ], "C04-COUNT", "%ld acquisitions counted, expected %ld", tot, (long)n * p[M_NACQ]);
   for (int m = 0; m < p[M_NMUTEX]; m++) { int rc = myth_mutex_destroy(&MX[m]); MVH_CHECK(rc == 0, "C04-DESTROY", "myth_mutex_destroy returned %d", rc); }
+  }
   if (wl_total_blocks) mvh_run_flags |= 1;
   wl_end(st, 1);
 }
@@ -296,11 +301,12 @@ static void *void_setter(void *arg) {
 
 static void cond_run(const long *p, mvsim_runcfg *cfg, mvsim_runstats *st) {
   P = p;
+  if (p[C_SHAPE] == 1 && p[C_NWAIT] > 16) { cfg->budget1 += 400UL * (uint64_t)p[C_NWAIT]; cfg->budget2 += 4000UL * (uint64_t)p[C_NWAIT]; }
+  wl_begin(cfg, p[Q_NWORKERS], 32, p[Q_QSIZE], (int)p[Q_PFIRST]);
+  for (int cyc = 0, ncyc = (p[C_SHAPE] == 1 && p[C_NWAIT] > 16) ? 1 : NCYCLES(); cyc < ncyc; cyc++) {
   bcount = bhead = btail = 0; c_occ = 0; gate_open = gate_waiting = gate_released = 0; turn = 0;
   void_flag = void_returns = void_early = 0; consumed_total = produced_total = 0;
   memset(seen_item, 0, sizeof seen_item);
-  if (p[C_SHAPE] == 1 && p[C_NWAIT] > 16) { cfg->budget1 += 400UL * (uint64_t)p[C_NWAIT]; cfg->budget2 += 4000UL * (uint64_t)p[C_NWAIT]; }
-  wl_begin(cfg, p[Q_NWORKERS], 32, p[Q_QSIZE], (int)p[Q_PFIRST]);
   myth_mutex_init(&cm, 0); myth_cond_init(&c_not_full, 0); myth_cond_init(&c_not_empty, 0); myth_cond_init(&c_gate, 0);
   switch (p[C_SHAPE]) {
     case 0: {
@@ -357,6 +363,7 @@ static void cond_run(const long *p, mvsim_runcfg *cfg, mvsim_runstats *st) {
   }
   MVH_CHECK(c_occ == 0, "C05-MUTEX-HELD", "monitor occupancy %d at the end", c_occ);
   MVH_CHECK(myth_cond_destroy(&c_not_full) == 0 && myth_cond_destroy(&c_not_empty) == 0 && myth_cond_destroy(&c_gate) == 0 && myth_mutex_destroy(&cm) == 0, "C05-DESTROY", "destroy failed");
+  }
   if (wl_total_blocks) mvh_run_flags |= 1;
   wl_end(st, 1);
 }
@@ -398,10 +405,11 @@ static void *barrier_thread(void *arg) {
 }
 static void barrier_run(const long *p, mvsim_runcfg *cfg, mvsim_runstats *st) {
   P = p;
-  memset((void *)arrivals, 0, sizeof arrivals); memset((void *)serials, 0, sizeof serials); memset((void *)passed, 0, sizeof passed);
   int n = (int)p[B_N]; if (n > MAXT - 2) n = MAXT - 2;
   if (n > 40) { cfg->budget1 += 400UL * (uint64_t)n * (uint64_t)p[B_ROUNDS]; cfg->budget2 += 4000UL * (uint64_t)n * (uint64_t)p[B_ROUNDS]; }
   wl_begin(cfg, p[Q_NWORKERS], 32, p[Q_QSIZE], (int)p[Q_PFIRST]);
+  for (int cyc = 0, ncyc = n > 40 ? 1 : NCYCLES(); cyc < ncyc; cyc++) {
+  memset((void *)arrivals, 0, sizeof arrivals); memset((void *)serials, 0, sizeof serials); memset((void *)passed, 0, sizeof passed);
   myth_barrier_init(&BAR, 0, n);
   spawn_all(n, barrier_thread);
   join_all(n);
@@ -410,6 +418,7 @@ static void barrier_run(const long *p, mvsim_runcfg *cfg, mvsim_runstats *st) {
     MVH_CHECK(passed[r] == n, "C06-RELEASE", "round %ld: %d of %d participants returned", r, passed[r], n);
   }
   MVH_CHECK(myth_barrier_destroy(&BAR) == 0, "C06-DESTROY", "barrier destroy failed");
+  }
   if (wl_total_blocks) mvh_run_flags |= 1;
   wl_end(st, 1);
 }
@@ -467,11 +476,12 @@ static void *jc_late(void *arg) {
 }
 static void jc_run(const long *p, mvsim_runcfg *cfg, mvsim_runstats *st) {
   P = p;
-  dec_invoked = 0; waiters_released = 0;
   int nw = (int)p[J_NWAIT], nd = (int)(p[J_NDEC] < 1 ? 1 : p[J_NDEC]);
   if (nw > MAXT - 10) nw = MAXT - 10;
   if (nw > 16 || p[J_N] > 64) { cfg->budget1 += 400UL * (uint64_t)(nw + p[J_N]); cfg->budget2 += 4000UL * (uint64_t)(nw + p[J_N]); }
   wl_begin(cfg, p[Q_NWORKERS], 32, p[Q_QSIZE], (int)p[Q_PFIRST]);
+  for (int cyc = 0, ncyc = (nw > 16 || p[J_N] > 64) ? 1 : NCYCLES(); cyc < ncyc; cyc++) {
+  dec_invoked = 0; waiters_released = 0;
   myth_join_counter_init(&JC, 0, p[J_N]);
   /* interleave creation of waiters and decrementers */
   for (long i = 0; i < nw + nd; i++) {
@@ -483,6 +493,7 @@ static void jc_run(const long *p, mvsim_runcfg *cfg, mvsim_runstats *st) {
   MVH_CHECK(waiters_released == nw, "C07-RELEASE", "%ld of %d waiters were released", (long)waiters_released, nw);
   for (long i = 0; i < p[J_LATE]; i++) TH[i] = myth_create(jc_late, (void *)i);
   join_all((int)p[J_LATE]);
+  }
   if (wl_total_blocks) mvh_run_flags |= 1;
   wl_end(st, 1);
 }
@@ -643,9 +654,10 @@ static void *fe_peeker(void *arg) {
 }
 static void felock_run(const long *p, mvsim_runcfg *cfg, mvsim_runstats *st) {
   P = p;
-  fe_slot = 0; fe_consumed = 0; memset(fe_seen, 0, sizeof fe_seen);
   int np = (int)p[F_NP], nc = (int)p[F_NC], nr = (int)p[F_READERS];
   wl_begin(cfg, p[Q_NWORKERS], 32, p[Q_QSIZE], (int)p[Q_PFIRST]);
+  for (int cyc = 0, ncyc = NCYCLES(); cyc < ncyc; cyc++) {
+  fe_slot = 0; fe_consumed = 0; memset(fe_seen, 0, sizeof fe_seen);
   myth_felock_init(&FE, 0);
   int npk = (int)p[F_PEEKERS]; fe_peeks = 0;
   /* peekers may start before, between or after the others */
@@ -668,6 +680,7 @@ static void felock_run(const long *p, mvsim_runcfg *cfg, mvsim_runstats *st) {
   MVH_CHECK(fe_consumed == total, "C09-COUNT", "%ld items consumed, %ld produced", (long)fe_consumed, total);
   for (long x = 0; x < total; x++) MVH_CHECK(fe_seen[x] == 1, "C09-ITEM", "item %ld was never consumed", x);
   myth_felock_destroy(&FE);
+  }
   if (wl_total_blocks) mvh_run_flags |= 1;
   wl_end(st, 1);
 }
